@@ -404,6 +404,80 @@ func genPrecFamilies(w *tr.W, r *rng.R, thorough bool) {
 	}
 }
 
+// cells with three or more actions: every order of the (separate) precedence levels of the handles involved,
+// each case built repeatedly so that different iteration orders of the action set are seen.
+//
+//	two reduces + shift   S -> A x | B x | C ; A -> I ; B -> I ; C -> I x ; I -> a      cell {r A=I, r B=I, shift x}
+//	three reduces         S -> A x | B y x | C z x ... (made LR-free: same lookahead x)  cell {r A=I, r B=I, r C=I}
+//	three reduces + shift S -> A x | B x | D x | C ; ... ; C -> I x                     cell {r A=I, r B=I, r D=I, shift x}
+type manyFamily struct {
+	prods   []string
+	handles []string // one precedence level per handle, every permutation
+	strings []string
+}
+
+var manyFamilies = []manyFamily{
+	{[]string{"S:Ax", "S:Bx", "S:C", "A:I", "B:I", "C:Ix", "I:a"}, []string{"A=I", "B=I", "x"},
+		[]string{"ax", "a", "axx", "x", ""}},
+	{[]string{"S:Ax", "S:Bx", "S:Cx", "A:I", "B:I", "C:I", "I:a"}, []string{"A=I", "B=I", "C=I"},
+		[]string{"ax", "a", "axx", "x", ""}},
+	{[]string{"S:Ax", "S:Bx", "S:Dx", "S:C", "A:I", "B:I", "D:I", "C:Ix", "I:a"}, []string{"A=I", "B=I", "D=I", "x"},
+		[]string{"ax", "a", "axx", "x", ""}},
+}
+
+func permutations(xs []string) [][]string {
+	if len(xs) <= 1 {
+		return [][]string{append([]string(nil), xs...)}
+	}
+	var res [][]string
+	for i := range xs {
+		rest := append(append([]string(nil), xs[:i]...), xs[i+1:]...)
+		for _, p := range permutations(rest) {
+			res = append(res, append([]string{xs[i]}, p...))
+		}
+	}
+	return res
+}
+
+func genPrecMany(w *tr.W, r *rng.R, thorough bool) {
+	builds := 6
+	if thorough {
+		builds = 25
+	}
+	assocs := []string{"L", "R", "N"}
+	for _, f := range manyFamilies {
+		for _, perm := range permutations(f.handles) {
+			g := mk('S', f.prods...)
+			var lv []string
+			for _, h := range perm {
+				lv = append(lv, assocs[r.Intn(3)]+":"+h) // levels are distinct, so the associativity is irrelevant
+			}
+			g.prec = strings.Join(lv, "/")
+			var opl []string
+			for b := 0; b < builds; b++ {
+				m := methods[b%3]
+				opl = append(opl, "B "+m)
+				for _, s := range f.strings {
+					if s == "" {
+						opl = append(opl, "W")
+					} else {
+						opl = append(opl, "W "+s)
+					}
+				}
+			}
+			runCase(w, g, opl)
+		}
+		// one handle left undeclared: the conflict must be reported
+		g := mk('S', f.prods...)
+		var lv []string
+		for _, h := range f.handles[1:] {
+			lv = append(lv, "L:"+h)
+		}
+		g.prec = strings.Join(lv, "/")
+		runCase(w, g, []string{"B slr", "B lalr", "B clr", "B slr", "B lalr", "B clr", "W ax"})
+	}
+}
+
 // random expression with the given number of operators (length 2k+1 <= 7, at most one parenthesised group)
 func randExpr(r *rng.R, ops string, k int) string {
 	var b []byte
